@@ -167,6 +167,21 @@ sub_alignz (Ctx& c, Local& L, uint64_t idx)
     const unsigned pc = (unsigned) (idx % 16);
     T              tg[3], up[3];
     gen_pair<T> (r, pc, tg, up);
+    // a quarter of the wide-length pairs: BOTH vectors short (2^-40 for float, 2^-300 for double), scaled exactly.  The squared
+    // length of their cross product underflows to zero while every quantity the function needs stays normal: a parallelism
+    // test on length2() instead of the underflow-safe length() mistakes them for parallel (seeded change C09-8).
+    const bool short_len = pc == P_WIDE_LEN && (idx / 16) % 4 == 0;
+    if (short_len)
+    {
+        const int ex = sizeof (T) == 4 ? -40 : -300;
+        for (T* v: {tg, up})
+        {
+            double n = std::sqrt ((double) v[0] * v[0] + (double) v[1] * v[1] + (double) v[2] * v[2]);
+            int    k = ex - std::ilogb (n);
+            for (int i = 0; i < 3; ++i) v[i] = (T) std::ldexp ((double) v[i], k);
+        }
+        L.cls ("pair_both_short_lengths");
+    }
     // seed the result with garbage: every entry has to be written
     Matrix44<T> m;
     for (int i = 0; i < 4; ++i) for (int j = 0; j < 4; ++j) m[i][j] = (T) (r.gauss () * 100 + 3);
@@ -209,8 +224,8 @@ sub_alignz (Ctx& c, Local& L, uint64_t idx)
     "pair_generic", "pair_nearly_parallel_1e-k", "pair_nearly_antiparallel_1e-k", "pair_perpendicular_exact", "pair_axis_aligned", "pair_wide_lengths", \
         "pair_obtuse", "pair_generic_unit"
 MON_SUB (ranged<sub_alignz<float>>, "alignZAxisWithTargetDir_float", 800000, 80000000)
-    .req ({PAIR_REQ_ALL, "skipped_nearly_parallel", "judged_regular", "judged_degenerate_zero_or_exactly_parallel"})
-    .over ("(target, up) pairs from 16 classes: generic, nearly (anti)parallel 1e-1..1e-7, exactly perpendicular, axis aligned, lengths 2^-12..2^12, "
+    .req ({PAIR_REQ_ALL, "skipped_nearly_parallel", "judged_regular", "judged_degenerate_zero_or_exactly_parallel", "pair_both_short_lengths"})
+    .over ("(target, up) pairs from 16 classes (+ both vectors short, 2^-40 / 2^-300): generic, nearly (anti)parallel 1e-1..1e-7, exactly perpendicular, axis aligned, lengths 2^-12..2^12, "
            "exactly (anti)parallel, zero target / up / both, parallel along a coordinate axis; result seeded with garbage");
 MON_SUB (ranged<sub_alignz<double>>, "alignZAxisWithTargetDir_double", 800000, 80000000)
     .req ({PAIR_REQ_ALL, "skipped_nearly_parallel", "judged_regular", "judged_degenerate_zero_or_exactly_parallel"})
